@@ -11,11 +11,22 @@ Tie to /repo, re-made on every run:
     int(.,16), float(), host syntax) get the REAL functions' answers to the questions the model itself
     lists for the case (pass 1 = Corr.flat_queries, pass 2 = Corr.check_case).
 
+The comparison is MEMBERSHIP: the observed outcome must be one of Model.allowed (create mode) /
+Model.allowed_parse (parse mode).  The code's behaviour of today is the first element; the property
+leaves open (a) which of several values of a repeated keyword counts - any one of them, or the
+descriptor error - and (b) whether a descriptor outside the documented unambiguous form (not the plain
+rendering of its own fields, surplus fields, non-canonical number spelling) is accepted at all: the
+descriptor error is allowed there too.  For strict canonical descriptors without repetition the set is
+the single pinned outcome (theorem C14_allowed_tight).
+
 Property oracle (independent of the model):
   totality   - nothing but QMI_TransportDescriptorException may leave create_transport /
                parse_parameter_strings;
   intent     - descriptors built by the grammar generator carry the values they were built from, so
-               the expected class / attribute values / rejection are known by construction;
+               the expected class / attribute values / rejection are known by construction; where
+               the property leaves a choice (repeated keyword, brackets around a plain part, leading
+               ':', non-canonical number spelling - decided from what the generator built, not from
+               the model) the expectation is a set of alternatives;
   no device  - constructing must not touch socket/serial/vxi11/usb (trip-wires), `_is_open` is False;
   round trip - descriptors from QMI_UsbTmcTransport._format_resources parse back.
 """
@@ -142,15 +153,22 @@ def impl_create(s, d):
     cls = type(t).__name__
     if EVENTS:
         return ("touch", cls, list(EVENTS))
-    if cls not in ATTRS:
+    if cls not in KCODE:
         return ("weird", "unknown class %s" % cls)
-    args = []
-    for name, a in ATTRS[cls]:
-        args.append((name, getattr(t, a[0])[a[1]] if isinstance(a, tuple) else getattr(t, a)))
-    return ("ok", cls, args, t._is_open)
-
-
-LIVE_IFACES = None     # interfaces for which the tree under test has a parser object (set by prepare_tables)
+    import inspect
+    known = dict(ATTRS.get(cls, []))
+    args, dfl = [], {}
+    for q in list(inspect.signature(type(t).__init__).parameters.values())[1:]:
+        a = known.get(q.name)
+        if a is None:       # a parameter this harness was not written for: stored as _name or name
+            a = "_" + q.name if hasattr(t, "_" + q.name) else q.name
+        try:
+            args.append((q.name, getattr(t, a[0])[a[1]] if isinstance(a, tuple) else getattr(t, a)))
+        except (AttributeError, IndexError, TypeError):
+            return ("weird", "cannot observe constructor argument %s of %s" % (q.name, cls))
+        if q.default is not inspect.Parameter.empty:
+            dfl[q.name] = q.default
+    return ("ok", cls, args, t._is_open, dfl)
 
 
 def real_parser(T, iface):
@@ -456,7 +474,7 @@ def gen_value(rng, iface, name, ty, kw):
     if kw and n >= 0 and rng.random() < 0.45:
         tok = rng.choice(["0x%x", "0x%04x", "0x%X", "0x%08x"]) % n
     else:
-        tok = rng.choice(["%d", "%d", "%d", "+%d", "%04d", " %d", "%d "]) % n
+        tok = ("%d" if rng.random() < 0.8 else rng.choice(["+%d", "%04d", " %d", "%d "])) % n
         if tok.startswith("+-"):
             tok = tok[1:]
     return tok, n, ok, False
@@ -469,10 +487,16 @@ def gen_wellformed(rng, iface=None, kws=None):
     params = sp["pos"] + sp["kw"]
     npos = rng.choice([len(sp["pos"])] * 4 + list(range(len(sp["pos"]) + 1)))
     given, valid, parts_pos, parts_kw = {}, True, [], []
+    open_reasons = set()       # why the property leaves the outcome on this descriptor open (see Model.allowed)
+    first_given = {}           # for a repeated keyword: the value of its first occurrence
     for i, (n, ty) in enumerate(sp["pos"][:npos]):
         tok, v, ok, br = gen_value(rng, iface, n, ty, False)
         given[n] = v
         valid &= ok
+        if br and ":" not in tok:
+            open_reasons.add("brackets-around-a-plain-part")
+        if not canonical_number(ty, tok, False):
+            open_reasons.add("number-spelling")
         parts_pos.append("[%s]" % tok if br else tok)
     force_default = []
     if kws is None:
@@ -490,17 +514,24 @@ def gen_wellformed(rng, iface=None, kws=None):
         tok, v, ok, _ = gen_value(rng, iface, n, ty, True)
         given[n] = v
         valid &= ok
+        if not canonical_number(ty, tok, True):
+            open_reasons.add("number-spelling")
         part = "%s=%s" % (n, tok)
         if not bracketed and rng.random() < 0.05:
             bracketed = True        # at most one bracketed part: the greedy group runs to the LAST ']'
             part = "[%s]" % part
+            open_reasons.add("brackets-around-a-plain-part")
         parts_kw.append(part)
-    if rng.random() < 0.1 and kws:       # a keyword given twice: the later one counts
+    if rng.random() < 0.1 and kws:
+        # a keyword given twice: the property allows either value, or refusing the descriptor
         n, ty = rng.choice(kws)
         tok, v, ok, _ = gen_value(rng, iface, n, ty, True)
+        if not canonical_number(ty, tok, True):
+            open_reasons.add("number-spelling")
         parts_kw.append("%s=%s" % (n, tok))
-        # validity: only the last value is validated
+        first_given[n] = given[n]
         given[n] = v
+        open_reasons.add("repeated-keyword")
         valid = None   # recomputed below
     unknown = False
     if rng.random() < 0.07:     # a keyword the interface does not have (abbreviation, other interface's, typo)
@@ -544,6 +575,7 @@ def gen_wellformed(rng, iface=None, kws=None):
     name = iface if casef < 0.85 else (iface.upper() if casef < 0.93 else iface.capitalize())
     if rng.random() < 0.04:
         name = ":" + name
+        open_reasons.add("leading-colon")
     s = ":".join([name] + merged)
     if not merged:
         return None
@@ -554,7 +586,38 @@ def gen_wellformed(rng, iface=None, kws=None):
         return None
     dd = d if (d or rng.random() < 0.5) else None
     return {"mode": "create", "s": s, "d": dd, "kind": "wf", "iface": iface,
-            "expect": ("err",) if unknown else expected(iface, given, d)}
+            "expect": intent(iface, given, first_given, d, unknown, open_reasons), "open": sorted(open_reasons)}
+
+
+_CANON = {"int": re.compile(r"-?(0|[1-9][0-9]*)\Z"), "hex": re.compile(r"0x[0-9a-fA-F]+\Z"),
+          "float": re.compile(r"-?(0|[1-9][0-9]*)(\.[0-9]+)?\Z")}
+
+
+def canonical_number(ty, tok, kw):
+    """plain spelling of a number (anything else - sign, blanks, leading zeros, exponent, inf - is accepted by
+    int()/float() today, but a stricter reader that refuses it still satisfies the property)"""
+    if ty == "int":
+        return bool(_CANON["hex" if (kw and tok.startswith("0x")) else "int"].match(tok))
+    if ty == "float":
+        return bool(_CANON["float"].match(tok))
+    return True
+
+
+def intent(iface, given, first_given, d, unknown, open_reasons):
+    """The outcome(s) the property demands for a generated descriptor: one definite outcome, or
+    ("any", [alternatives]) where the property leaves a choice."""
+    if unknown:
+        return ("err",)
+    alts = [expected(iface, given, d)]
+    for n, v in first_given.items():
+        alts.append(expected(iface, dict(given, **{n: v}), d))
+    if open_reasons:
+        alts.append(("err",))
+    uniq = []
+    for a in alts:
+        if a not in uniq:
+            uniq.append(a)
+    return uniq[0] if len(uniq) == 1 else ("any", uniq)
 
 
 def _welltyped(v, ty):
@@ -865,8 +928,18 @@ def oracle(c, o):
     exp = c.get("expect")
     if exp is None:
         return None
+    if exp[0] == "any":
+        whys = [_match_intent(c, o, a) for a in exp[1]]
+        if any(w is None for w in whys):
+            return None
+        return ("intent:%s:none-of-the-allowed" % c["iface"],
+                "outcome %r is none of the outcomes the property allows here (%s): %r" % (o[:3], ", ".join(c.get("open", [])), exp[1]))
+    return _match_intent(c, o, exp)
+
+
+def _match_intent(c, o, exp):
     if exp[0] == "err" and o[0] != "err":
-        return "intent:%s:accepted" % c["iface"], "descriptor that must be rejected was accepted: %r" % (o,)
+        return "intent:%s:accepted" % c["iface"], "descriptor that must be rejected was accepted: %r" % (o[:3],)
     if exp[0] == "ok":
         if o[0] != "ok":
             return "intent:%s:rejected" % c["iface"], "well-formed descriptor rejected (expected %r)" % (exp,)
@@ -877,8 +950,14 @@ def oracle(c, o):
             if n not in got or not same_value(got[n], v):
                 return "intent:%s:value:%s" % (c["iface"], n), "parameter %s is %r, the descriptor/defaults say %r" % (
                     n, got.get(n), v)
-        if len(got) != len(exp[2]):
-            return "intent:%s:extra" % c["iface"], "unexpected attributes %r" % (sorted(set(got) - {n for n, _ in exp[2]}),)
+        # constructor arguments the documented interface does not name must hold the constructor's own default
+        known = {n for n, _ in exp[2]}
+        dfl = o[4] if len(o) > 4 else {}
+        for n, v in got.items():
+            if n not in known and not (n in dfl and same_value(dfl[n], v)):
+                return "intent:%s:extra:%s" % (c["iface"], n), \
+                    "argument %s=%r was given neither by the descriptor nor by the defaults and is not the " \
+                    "constructor default" % (n, v)
     return None
 
 
@@ -919,7 +998,7 @@ def replay_obj(c, o, extra=None):
     r = {"mode": c["mode"], "descriptor": c["s"], "descriptor_codepoints": [ord(ch) for ch in c["s"]],
          "defaults": None if c["d"] is None else [[k, v] for k, v in c["d"].items()],
          "table": list(c["table"]) if c["mode"] == "parse" else None, "kind": c.get("kind"), "mutation": c.get("mut"),
-         "impl": repr(o), "expect": c.get("expect")}
+         "impl": repr(o), "expect": c.get("expect"), "open": c.get("open")}
     if extra:
         r.update(extra)
     return r
@@ -1037,7 +1116,7 @@ def run(ck):
         ck.count("len:%s" % ("0-10" if len(c["s"]) <= 10 else "11-40" if len(c["s"]) <= 40 else "41-100" if len(c["s"]) <= 100 else "100+"))
         ck.count("defaults:%s" % ("none" if c["d"] is None else "empty" if not c["d"] else "some"))
         if c.get("expect"):
-            ck.count("intent:" + c["expect"][0])
+            ck.count("intent:" + ("open (%s)" % "+".join(c.get("open", [])) if c["expect"][0] == "any" else c["expect"][0]))
         r = oracle(c, o)
         c["oracle"] = r
         if r:
@@ -1123,7 +1202,10 @@ def replay(rep):
     c = {"mode": c0["mode"], "s": s, "d": d, "kind": "replay", "iface": "replay"}
     ex = c0.get("expect")
     if ex:
-        c["expect"] = ("err",) if ex[0] == "err" else ("ok", ex[1], [tuple(x) for x in ex[2]])
+        def one(e):
+            return ("err",) if e[0] == "err" else ("ok", e[1], [tuple(x) for x in e[2]])
+        c["expect"] = ("any", [one(e) for e in ex[1]]) if ex[0] == "any" else one(ex)
+        c["open"] = c0.get("open") or []
         c["iface"] = (c0.get("kind") or "replay")
         print("demanded by construction:", c["expect"])
     if c0["mode"] == "parse":
